@@ -18,6 +18,16 @@
                     specification (invalid sequence => U+FFFD, width 1)
      int(uint(e) >> k)         go_uint_shr (64-bit two's complement)
 
+     []byte buffer  (a LOCAL []byte variable, or the target of a *[]byte parameter)
+                    gobuf = backing array from the start of the slice up to its
+                    capacity + length.  make([]byte, n[, c]) buf_make; x[:k] (k <= cap:
+                    the bytes between len and cap reappear) buf_reslice_to; x[i]
+                    buf_index; x[i] = c buf_set; copy(x, s) buf_copy; string(x)
+                    buf_string; len / cap buf_len / buf_cap.  A value stands for a
+                    Go slice only under the aliasing discipline the translator
+                    enforces (harness/cmd/gotrans/buf.go): no two live variables share
+                    a backing array, except `b := *buf`, which has the same header.
+
    GenSemCheck.v (generated) replays samples of the real Go functions against
    these definitions on every run. *)
 From FoxBase Require Import Bytes.
@@ -134,3 +144,43 @@ Definition decode_rune (s : bytes) : Z * nat :=
       end
     else rune_error
   end.
+
+(* ---- mutable []byte buffers ---- *)
+Record gobuf : Type := { b_arr : bytes;   (* the backing array, from the start of the slice to its capacity *)
+                         b_len : Z }.     (* len; cap = length of b_arr *)
+Definition zero_byte : ascii := ascii_of_N 0.
+Definition buf_nil : gobuf := {| b_arr := []; b_len := 0 |}.
+Definition buf_len (b : gobuf) : Z := b_len b.
+Definition buf_cap (b : gobuf) : Z := len (b_arr b).
+
+(* make([]byte, n, c): zeroed; n < 0 or n > c panics (run time, for non-constant arguments) *)
+Definition buf_make (n c : Z) : outcome gobuf :=
+  if (0 <=? n) && (n <=? c) then Ret {| b_arr := repeat zero_byte (Z.to_nat c); b_len := n |} else Panic.
+
+(* b[:k]: 0 <= k <= cap(b) (NOT len(b)): same backing array *)
+Definition buf_reslice_to (b : gobuf) (k : Z) : outcome gobuf :=
+  if (0 <=? k) && (k <=? buf_cap b) then Ret {| b_arr := b_arr b; b_len := k |} else Panic.
+
+(* b[i]: 0 <= i < len(b) *)
+Definition buf_index (b : gobuf) (i : Z) : outcome ascii :=
+  if (0 <=? i) && (i <? b_len b) then go_index (b_arr b) i else Panic.
+
+Fixpoint list_set {A} (l : list A) (i : nat) (x : A) : list A :=
+  match l, i with
+  | [], _ => []
+  | _ :: t, O => x :: t
+  | y :: t, S i' => y :: list_set t i' x
+  end.
+
+(* b[i] = c *)
+Definition buf_set (b : gobuf) (i : Z) (c : ascii) : outcome gobuf :=
+  if (0 <=? i) && (i <? b_len b)
+  then Ret {| b_arr := list_set (b_arr b) (Z.to_nat i) c; b_len := b_len b |} else Panic.
+
+(* copy(b, src) for a string src: min(len b, len src) bytes *)
+Definition buf_copy (b : gobuf) (src : bytes) : gobuf :=
+  let k := Nat.min (Z.to_nat (b_len b)) (List.length src) in
+  {| b_arr := firstn k src ++ skipn k (b_arr b); b_len := b_len b |}.
+
+(* string(b) *)
+Definition buf_string (b : gobuf) : bytes := firstn (Z.to_nat (b_len b)) (b_arr b).
